@@ -623,5 +623,1077 @@ def run_mof_cases(ctx, stream, cases, orders=(0, 1, 7)):
 
 def _stream_mof(ctx):
     rng = ctx.rng
-    cases = [gen_mof_case(rng) for _ in range(ctx.budget(400, mult=8))]
+    cases = [gen_mof_case(rng) for _ in range(ctx.budget(1500, mult=8))]
     run_mof_cases(ctx, "mof", cases)
+
+
+# ------------------------------------------------------------------------------------------------
+# end-to-end transfers on the real code
+
+import contextlib
+import os
+import subprocess
+import threading
+
+ZERO = b"0" * 40
+_FILLER = b"".join(b"line %03d: the quick brown fox jumps over the lazy dog\n" % i for i in range(12))
+
+
+class World:
+    """One generated history materialised as real objects, plus the disk repositories built from it."""
+
+    def __init__(self, g: Graph, root: Path):
+        self.g = g
+        self.root = root
+        self.objs, self.sha = materialise_big(g)
+        self.rev = {v: k for k, v in self.sha.items()}
+        self.n = 0
+
+    def raw(self, i):
+        o = self.objs[i]
+        return (o.type_num, o.as_raw_string())
+
+    def new_path(self, stem):
+        self.n += 1
+        return str(self.root / f"{stem}{self.n}")
+
+    def make_repo(self, stem, ids, refs: dict, head=None, repack=False):
+        from dulwich.repo import Repo
+        path = self.new_path(stem)
+        r = Repo.init_bare(path, mkdir=True)
+        try:
+            for i in sorted(ids):
+                r.object_store.add_object(self.objs[i])
+            for name, i in refs.items():
+                r.refs[name] = self.sha[i]
+            if head is not None:
+                r.refs.set_symbolic_ref(b"HEAD", head)
+        finally:
+            r.close()
+        if repack:
+            rc, out = core.sh(["git", "-C", path, "repack", "-adq", "--window=10", "--depth=10"], env=core.clean_env())
+            if rc != 0:
+                raise core.InfraError("git repack failed: " + out[-500:])
+            core.sh(["git", "-C", path, "prune-packed", "-q"], env=core.clean_env())
+        return path
+
+    def ids_in(self, path):
+        """(ids of known objects, shas of unknown objects) held by the repository at path."""
+        from dulwich.repo import Repo
+        r = Repo(path)
+        try:
+            known, foreign = set(), set()
+            for s in r.object_store:
+                if s in self.rev:
+                    known.add(self.rev[s])
+                else:
+                    foreign.add(s)
+            return known, foreign
+        finally:
+            r.close()
+
+
+def materialise_big(g: Graph):
+    """Like materialise(), but blobs share a few hundred bytes so that C git produces deltas (and thin
+    packs) for them."""
+    objs, sha = materialise(g)
+    from dulwich.objects import Blob
+    remap = {}
+    for i, o in g.objs.items():
+        if o[0] == "blob":
+            objs[i] = Blob.from_string(b"blob %d\n" % i + _FILLER + b"end %d\n" % (i % 3))
+    # re-materialise everything above the blobs with the new blob shas
+    import hashlib
+    from dulwich.objects import Commit, Tag, Tree
+    sha2 = {i: hashlib.sha1(b"absent %d" % i).hexdigest().encode() for i in g.absent}
+    out = {}
+    for i in sorted(g.objs):
+        o = g.objs[i]
+        if o[0] == "blob":
+            x = objs[i]
+        elif o[0] == "tree":
+            x = Tree()
+            for j, (m, c) in enumerate(o[1]):
+                if c not in sha2:
+                    sha2[c] = hashlib.sha1(b"absent %d" % c).hexdigest().encode()
+                x.add(b"e%02d" % j, m, sha2[c])
+        elif o[0] == "commit":
+            x = objs[i].copy()
+            x.tree = sha2[o[1]]
+            x.parents = [sha2[p] for p in o[2]]
+        else:
+            x = objs[i].copy()
+            x.object = (type(out[o[1]]), sha2[o[1]])
+        out[i] = x
+        sha2[i] = x.id
+    if len(set(sha2.values())) != len(sha2):
+        raise core.InfraError("materialise_big: sha collision")
+    return out, sha2
+
+
+class _LogTail(__import__("logging").Handler):
+    """Keeps the last error records dulwich's servers log (they swallow handler exceptions)."""
+
+    def __init__(self):
+        super().__init__(level=__import__("logging").ERROR)
+        self.records = []
+
+    def emit(self, record):
+        import traceback as tb
+        txt = record.getMessage()
+        if record.exc_info and record.exc_info[1] is not None:
+            e = record.exc_info[1]
+            last = tb.extract_tb(e.__traceback__)[-1] if e.__traceback__ else None
+            txt += f" | {type(e).__name__}: {str(e)[:160]}" + (f" @ {os.path.basename(last.filename)}:{last.name}" if last else "")
+        self.records.append(txt)
+        del self.records[:-20]
+
+
+class Servers:
+    """dulwich TCP and WSGI smart-HTTP servers on localhost threads, one per dropped-capability set, plus
+    the hook that records which object ids the server-side code decided to put on the wire."""
+
+    def __init__(self):
+        self.tcp = {}
+        self.http = {}
+        self.sent_log = []          # list of lists of hex shas, one per pack written by a dulwich server
+        self._orig = None
+        import logging
+        self.log = _LogTail()
+        for name in ("dulwich.server", "dulwich.web"):
+            lg = logging.getLogger(name)
+            lg.addHandler(self.log)
+            lg.propagate = False
+
+    def start_capture(self):
+        import dulwich.server as S
+        if self._orig is not None:
+            return
+        self._orig = S.write_pack_from_container
+        log = self.sent_log
+        orig = self._orig
+
+        def tee(write, container, object_ids, *a, **kw):
+            object_ids = list(object_ids)
+            log.append([oid for oid, _ in object_ids])
+            return orig(write, container, object_ids, *a, **kw)
+        S.write_pack_from_container = tee
+
+    def _handlers(self, drop):
+        from dulwich.server import ReceivePackHandler, UploadPackHandler
+        drop = frozenset(drop)
+
+        class Upload(UploadPackHandler):
+            def capabilities(self):
+                return [c for c in super().capabilities() if c not in drop]
+        return {b"git-upload-pack": Upload, b"git-receive-pack": ReceivePackHandler}
+
+    def tcp_port(self, drop=()):
+        from dulwich.server import FileSystemBackend, TCPGitServer
+        key = frozenset(drop)
+        if key not in self.tcp:
+            srv = TCPGitServer(FileSystemBackend("/"), "localhost", 0, handlers=self._handlers(drop))
+            t = threading.Thread(target=srv.serve_forever, kwargs={"poll_interval": 0.05}, daemon=True)
+            t.start()
+            self.tcp[key] = (srv, t)
+        return self.tcp[key][0].server_address[1]
+
+    def http_port(self, drop=()):
+        from wsgiref import simple_server
+        from dulwich.server import FileSystemBackend
+        from dulwich.web import WSGIRequestHandlerLogger, WSGIServerLogger, make_wsgi_chain
+        key = frozenset(drop)
+        if key not in self.http:
+            app = make_wsgi_chain(FileSystemBackend("/"), handlers=self._handlers(drop))
+            srv = simple_server.make_server("localhost", 0, app, server_class=WSGIServerLogger,
+                                            handler_class=WSGIRequestHandlerLogger)
+            t = threading.Thread(target=srv.serve_forever, kwargs={"poll_interval": 0.05}, daemon=True)
+            t.start()
+            self.http[key] = (srv, t)
+        return self.http[key][0].server_address[1]
+
+    def close(self):
+        import logging
+        import dulwich.server as S
+        for name in ("dulwich.server", "dulwich.web"):
+            logging.getLogger(name).removeHandler(self.log)
+        for d in (self.tcp, self.http):
+            for srv, t in d.values():
+                with contextlib.suppress(Exception):
+                    srv.shutdown()
+                    srv.server_close()
+            d.clear()
+        if self._orig is not None:
+            S.write_pack_from_container = self._orig
+            self._orig = None
+
+
+DUL_TRANSPORTS = ["local", "tcp", "http", "cgit-sub"]          # dulwich is the client
+GIT_TRANSPORTS = ["git-tcp", "git-http"]                        # C git is the client, dulwich the server
+ACK_MODES = ["detailed", "multi", "single"]
+
+
+def _dul_client(tr, var, servers):
+    from dulwich.client import HttpGitClient, LocalGitClient, SubprocessGitClient, TCPGitClient
+    kw = {"include_tags": var.get("include_tag", False)}
+    drop = set(var.get("server_drop", ()))
+    if tr == "local":
+        c = LocalGitClient(**kw)
+    elif tr == "tcp":
+        c = TCPGitClient("localhost", port=servers.tcp_port(drop), thin_packs=True, **kw)
+    elif tr == "http":
+        c = HttpGitClient(f"http://localhost:{servers.http_port(drop)}/", thin_packs=True, **kw)
+    else:
+        c = SubprocessGitClient(thin_packs=var.get("thin", True), **kw)
+    caps = getattr(c, "_fetch_capabilities", None)
+    if caps is not None:
+        ack = var.get("ack", "detailed")
+        if ack in ("multi", "single"):
+            caps.discard(b"multi_ack_detailed")
+        if ack == "single":
+            caps.discard(b"multi_ack")
+        if tr == "cgit-sub":
+            for cap in var.get("client_drop", ()):
+                caps.discard(cap)
+    return c
+
+
+def _pack_ids(data: bytes, world: World):
+    """Hex shas of the objects in a transmitted pack (thin-pack bases resolved against the generated objects)."""
+    from io import BytesIO
+    from dulwich.object_format import DEFAULT_OBJECT_FORMAT
+    from dulwich.pack import PackData, PackInflater
+    if len(data) < 32:
+        return [], 0
+    by_sha = {o.id: o for o in world.objs.values()}
+
+    def ext(sha):
+        from dulwich.objects import sha_to_hex
+        h = sha if len(sha) == 40 else sha_to_hex(sha)
+        o = by_sha[h]
+        return o.type_num, o.as_raw_string()
+    pd = PackData.from_file(BytesIO(data), DEFAULT_OBJECT_FORMAT, len(data))
+    deltas = sum(1 for u in pd.iter_unpacked() if u.pack_type_num in (6, 7))
+    ids = [o.id for o in PackInflater.for_pack_data(pd, resolve_ext_ref=ext)]
+    return ids, deltas
+
+
+@contextlib.contextmanager
+def _git_protocol_env(version):
+    old = os.environ.get("GIT_PROTOCOL")
+    if version == 2:
+        os.environ["GIT_PROTOCOL"] = "version=2"
+    else:
+        os.environ.pop("GIT_PROTOCOL", None)
+    try:
+        yield
+    finally:
+        if old is None:
+            os.environ.pop("GIT_PROTOCOL", None)
+        else:
+            os.environ["GIT_PROTOCOL"] = old
+
+
+def _git(args, cwd=None, timeout=120):
+    p = subprocess.run(["git"] + args, cwd=cwd, env=core.clean_env({"GIT_TERMINAL_PROMPT": "0"}),
+                       stdout=subprocess.PIPE, stderr=subprocess.STDOUT, timeout=timeout, text=True, errors="replace")
+    return p.returncode, p.stdout
+
+
+def _url(tr, servers, path, drop=()):
+    if tr == "git-tcp":
+        return f"git://localhost:{servers.tcp_port(drop)}{path}"
+    return f"http://localhost:{servers.http_port(drop)}{path}"
+
+
+def do_fetch(world, servers, tr, var, src, dst, want_refs: dict, depth=None, fetch_all=False, raw_wants=None):
+    """One real fetch of `want_refs` ({refname: id}) from the repository at `src` into the one at `dst`.
+    Returns {"ok": bool, "err": str|None, "wire": set of hex shas | None, "deltas": n}; on success the
+    fetched refs are written into dst (mirror style) — by C git itself when it is the client."""
+    from dulwich.repo import Repo
+    out = {"ok": False, "err": None, "wire": None, "deltas": 0}
+    servers.sent_log.clear()
+    servers.log.records.clear()
+    want_shas = [world.sha[i] for i in want_refs.values()] if raw_wants is None else list(raw_wants)
+    if tr in GIT_TRANSPORTS:
+        drop = set(var.get("server_drop", ()))
+        args = ["-c", f"protocol.version={var.get('proto', 0)}", "-c", "gc.auto=0",
+                "-c", f"fetch.unpackLimit={var.get('unpack_limit', 100)}",
+                "-c", f"fetch.negotiationAlgorithm={var.get('nego', 'consecutive')}",
+                "-C", dst, "fetch", "-q"]
+        if not var.get("include_tag", False):
+            args.append("--no-tags")
+        if depth:
+            args.append(f"--depth={depth}")
+        args.append(_url(tr, servers, src, drop))
+        args += [f"+{n.decode()}:{n.decode()}" for n in want_refs]
+        rc, txt = _git(args)
+        out["ok"] = rc == 0
+        out["err"] = None if rc == 0 else txt[-400:]
+        if servers.sent_log:
+            out["wire"] = {s for pack in servers.sent_log for s in pack}
+        return out
+    client = _dul_client(tr, var, servers)
+    buf = []
+    if var.get("slow_client") and hasattr(client, "_connect"):
+        # a client that polls for server output a little later than the server produces it (network timing is
+        # not under the protocol's control): can_read() waits up to 150 ms for data instead of not at all
+        orig_connect = client._connect
+
+        def _connect(cmd, path, protocol_version=None):
+            import time
+            proto, can_read, stderr = orig_connect(cmd, path, protocol_version)
+
+            def patient_can_read():
+                for _ in range(30):
+                    if can_read():
+                        return True
+                    time.sleep(0.005)
+                return False
+            return proto, (patient_can_read if can_read is not None else None), stderr
+        client._connect = _connect
+    if tr != "local":
+        orig = client.fetch_pack
+
+        def fetch_pack(path, dw, gw, pack_data, **kw):
+            def tee(d):
+                buf.append(bytes(d))
+                return pack_data(d)
+            return orig(path, dw, gw, tee, **kw)
+        client.fetch_pack = fetch_pack
+    r = Repo(dst)
+    try:
+        kw = {}
+        if depth:
+            kw["depth"] = depth
+        if tr == "cgit-sub" and var.get("proto") == 2:
+            kw["protocol_version"] = 2
+        with _git_protocol_env(var.get("proto", 0) if tr == "cgit-sub" else 0):
+            try:
+                if fetch_all:
+                    res = client.fetch(src, r, **kw)      # default determine_wants, as porcelain.fetch does
+                else:
+                    res = client.fetch(src, r, determine_wants=lambda refs, depth=None: list(want_shas), **kw)
+            except Exception as e:      # noqa: BLE001 — the failure itself is the observation
+                out["err"] = f"{type(e).__name__}: {str(e)[:300]}"
+                if buf:
+                    out["leaked"] = len(b"".join(buf))
+                return out
+        out["ok"] = True
+        if fetch_all:
+            from dulwich.refs import _import_remote_refs
+            _import_remote_refs(r.refs, "origin", res.refs)       # what porcelain.fetch / clone do with the result
+        elif raw_wants is None:
+            for n, i in want_refs.items():
+                if res.refs.get(n) == world.sha[i]:
+                    r.refs[n] = world.sha[i]
+        if buf:
+            ids, deltas = _pack_ids(b"".join(buf), world)
+            out["wire"], out["deltas"] = set(ids), deltas
+        elif servers.sent_log:
+            out["wire"] = {s for pack in servers.sent_log for s in pack}
+        return out
+    finally:
+        r.close()
+        with contextlib.suppress(Exception):
+            client.close()
+
+
+def do_clone(world, servers, tr, var, src, depth=None):
+    """Real clone of `src` into a fresh directory; returns (result dict, path)."""
+    out = {"ok": False, "err": None, "wire": None, "deltas": 0}
+    servers.sent_log.clear()
+    servers.log.records.clear()
+    dst = world.new_path("clone")
+    if tr in GIT_TRANSPORTS:
+        args = ["-c", f"protocol.version={var.get('proto', 0)}", "-c", "gc.auto=0", "clone", "-q", "--bare"]
+        if depth:
+            args.append(f"--depth={depth}")
+            args.append("--no-single-branch")
+        args += [_url(tr, servers, src, set(var.get("server_drop", ()))), dst]
+        rc, txt = _git(args)
+        out["ok"] = rc == 0
+        out["err"] = None if rc == 0 else txt[-400:]
+        if servers.sent_log:
+            out["wire"] = {s for pack in servers.sent_log for s in pack}
+        return out, dst
+    client = _dul_client(tr, var, servers)
+    kw = {}
+    if depth:
+        kw["depth"] = depth
+    if tr == "cgit-sub" and var.get("proto") == 2:
+        kw["protocol_version"] = 2
+    with _git_protocol_env(var.get("proto", 0) if tr == "cgit-sub" else 0):
+        try:
+            r = client.clone(src, dst, mkdir=True, bare=True, checkout=False, **kw)
+            r.close()
+            out["ok"] = True
+        except Exception as e:      # noqa: BLE001
+            out["err"] = f"{type(e).__name__}: {str(e)[:300]}"
+    if servers.sent_log:
+        out["wire"] = {s for pack in servers.sent_log for s in pack}
+    with contextlib.suppress(Exception):
+        client.close()
+    return out, dst
+
+
+def do_push(world, servers, tr, var, src, dst, push_refs: dict):
+    """Real push of `push_refs` ({refname: id}) from the repository at `src` to the one at `dst`."""
+    from dulwich.repo import Repo
+    out = {"ok": False, "err": None, "wire": None, "deltas": 0, "status": {}}
+    servers.sent_log.clear()
+    servers.log.records.clear()
+    if tr in GIT_TRANSPORTS:
+        args = ["-c", "gc.auto=0", "-c", f"protocol.version={var.get('proto', 0)}", "-C", src, "push", "-q"]
+        if var.get("thin") is False:
+            args.append("--no-thin")
+        args.append(_url(tr, servers, dst))
+        args += [f"+{world.sha[i].decode()}:{n.decode()}" for n, i in push_refs.items()]
+        rc, txt = _git(args)
+        out["ok"] = rc == 0
+        out["err"] = None if rc == 0 else txt[-400:]
+        return out
+    client = _dul_client(tr, var, servers)
+    r = Repo(src)
+    sent = []
+    try:
+        def update_refs(old):
+            new = dict(old)
+            for n, i in push_refs.items():
+                new[n] = world.sha[i]
+            return new
+
+        def gen(have, want, **kw):
+            n, it = r.generate_pack_data(have, want, **kw)
+            lst = list(it)
+            from dulwich.objects import sha_to_hex
+            for u in lst:
+                sent.append(sha_to_hex(u.sha()))
+            return n, iter(lst)
+        try:
+            res = client.send_pack(dst, update_refs, gen)
+        except Exception as e:      # noqa: BLE001
+            out["err"] = f"{type(e).__name__}: {str(e)[:300]}"
+            return out
+        st = res.ref_status or {}
+        out["status"] = {k.decode() if isinstance(k, bytes) else k: v for k, v in st.items() if v}
+        out["ok"] = not out["status"]
+        if not out["ok"]:
+            out["err"] = str(out["status"])[:300]
+        out["wire"] = set(sent)
+        return out
+    finally:
+        r.close()
+        with contextlib.suppress(Exception):
+            client.close()
+
+
+# ------------------------------------------------------------------------------------------------
+# e2e scenarios + the direct oracle
+
+def gen_scenario(rng):
+    g = gen_graph(rng, rng.choice([12, 20, 30, 30, 45, 60]))
+    commits, tags = g.ids("commit"), g.ids("tag")
+    has_child = {p for c in commits for p in g.objs[c][2]}
+    tips = [c for c in commits if c not in has_child]
+    heads = list(dict.fromkeys(rng.sample(tips, min(len(tips), rng.choice([1, 2, 3]))) +
+                               rng.sample(commits, min(len(commits), rng.choice([0, 1, 2])))))
+    srefs = {b"refs/heads/b%d" % k: c for k, c in enumerate(heads)}
+    for t in rng.sample(tags, min(len(tags), rng.choice([0, 1, 2, 4, 6]))):
+        srefs[b"refs/tags/t%d" % t] = t
+    if rng.random() < 0.4:
+        c = rng.choice(commits)
+        srefs[b"refs/tags/light%d" % c] = c
+    sclos = g.closure(srefs.values())
+    rest = [i for i in g.objs if i not in sclos]
+    garbage = g.closure(rng.sample(rest, min(len(rest), rng.choice([0, 1, 3])))) if rest else set()
+    sender_ids = {i for i in (sclos | garbage) if i in g.objs}
+    # receiver: any complete sub-history (roots anywhere in the graph, possibly unknown to the sender)
+    rrefs = {}
+    state = rng.choice(["empty", "empty", "behind", "behind", "behind", "mixed", "mixed", "ahead", "same"])
+    pool = commits * 2 + tags
+    if state == "behind":
+        inside = [c for c in commits if c in sclos]
+        roots = rng.sample(inside, min(len(inside), rng.choice([1, 1, 2])))
+    elif state == "mixed":
+        roots = rng.sample(pool, min(len(pool), rng.choice([1, 2, 3])))
+    elif state == "ahead":
+        roots = list(commits[-2:]) + rng.sample(pool, 1)
+    elif state == "same":
+        roots = list(srefs.values())
+    else:
+        roots = []
+    for k, x in enumerate(dict.fromkeys(roots)):
+        rrefs[(b"refs/heads/r%d" if g.objs[x][0] == "commit" else b"refs/tags/r%d") % k] = x
+    recv_ids = {i for i in g.closure(rrefs.values()) if i in g.objs}
+    if rng.random() < 0.06:
+        # unreferenced leftovers (e.g. of an interrupted transfer): a tip object without its closure.  The
+        # repository is still complete in the property's sense (everything reachable from its refs is there).
+        state += "+dangling"
+        recv_ids |= set(rng.sample(sorted(srefs.values()), 1))
+    return {"g": g, "srefs": srefs, "sender_ids": sender_ids, "rrefs": rrefs, "recv_ids": recv_ids, "state": state,
+            "repack": rng.random() < 0.35}
+
+
+def gen_variant(rng, tr, op):
+    var = {"ack": rng.choice(ACK_MODES), "include_tag": rng.random() < 0.4}
+    if tr in ("tcp", "http", "git-tcp", "git-http"):
+        drop = set()
+        if tr == "git-http":
+            var["ack"] = "detailed"      # C git refuses stateless-rpc without multi_ack_detailed
+        if tr == "git-tcp":
+            # the C git client always asks for the best mode on offer: steer it from the server side
+            if var["ack"] in ("multi", "single"):
+                drop.add(b"multi_ack_detailed")
+            if var["ack"] == "single":
+                drop.add(b"multi_ack")
+        if rng.random() < 0.3:
+            drop.add(b"no-done")
+        if rng.random() < 0.15:
+            drop.add(b"include-tag")
+        var["server_drop"] = sorted(drop)
+    if tr in ("tcp", "cgit-sub") and op in ("fetch", "fetchall") and rng.random() < 0.15:
+        var["slow_client"] = True
+    if tr == "cgit-sub":
+        var["proto"] = rng.choice([0, 0, 2])
+        var["thin"] = rng.random() < 0.75
+        cd = [c for c in (b"ofs-delta", b"side-band-64k") if rng.random() < 0.25]
+        var["client_drop"] = cd
+    if tr.startswith("git-"):
+        var["proto"] = rng.choice([0, 0, 1, 2])
+        var["nego"] = rng.choice(["consecutive", "consecutive", "skipping", "noop"])
+        var["unpack_limit"] = rng.choice([1, 100])
+        var["thin"] = rng.random() < 0.8
+    return var
+
+
+def var_key(var):
+    return json.dumps({k: ([x.decode() if isinstance(x, bytes) else x for x in v] if isinstance(v, list) else v)
+                       for k, v in sorted(var.items())}, sort_keys=True)
+
+
+def min_depths(g: Graph, tips):
+    """Minimal depth (tip = 1) of every commit reachable from the peeled tips."""
+    depth = {}
+    frontier = [g.peel(t) for t in tips]
+    frontier = [c for c in frontier if c in g.objs and g.objs[c][0] == "commit"]
+    d = 1
+    while frontier:
+        nxt = []
+        for c in frontier:
+            if c in depth:
+                continue
+            depth[c] = d
+            nxt.extend(g.objs[c][2])
+        frontier = [c for c in nxt if c not in depth]
+        d += 1
+    return depth
+
+
+def check_receiver(ctx, stream, world, case, path, before, shallow_before, transferred, allowed, res, depth=None,
+                   fsck=False, push=False, sender_shallow=False, fetch_all=False, depth_tips=None):
+    """The property's own words after a successful transfer into the repository at `path`:
+      * it holds every object reachable from the transferred refs and from all its refs (through tag chains,
+        gitlinks excluded), cut only at its recorded shallow commits; a depth-limited fetch may cut no earlier
+        than the requested depth and a full fetch may not add shallow commits;
+      * each of those objects is byte-identical to the sender's;
+      * what travelled (new objects in the receiver, object ids captured on the wire) lies inside `allowed`
+        = closure of what was asked for (+ auto-followed tags when the client asked for them);
+      * no object appeared that the sender's history does not contain."""
+    from dulwich.repo import Repo
+    g = world.g
+    r = Repo(path)
+    try:
+        after, foreign = set(), set()
+        for s in r.object_store:
+            (after.add(world.rev[s]) if s in world.rev else foreign.add(s))
+        shallow_after = {world.rev[s] for s in r.get_shallow() if s in world.rev}
+        ref_ids = set()
+        for n, s in r.get_refs().items():
+            if s in world.rev:
+                ref_ids.add(world.rev[s])
+            elif s != ZERO:
+                ctx.oracle_fail(stream, case, f"receiver ref {n!r} names an object unknown to the history", "ref-foreign")
+        if foreign:
+            ctx.oracle_fail(stream, case, f"receiver holds {len(foreign)} object(s) that exist nowhere in the sender's "
+                                          f"history, e.g. {sorted(foreign)[0].decode()}", "foreign-object")
+        roots = set(transferred) | ref_ids
+        required = {i for i in g.closure(roots, shallow=shallow_after) if i in g.objs}
+        missing = required - after
+        miss_cls = None
+        if missing:
+            miss_cls = _incomplete_class(push, depth, shallow_before, sender_shallow)
+            if fetch_all:
+                # default determine_wants skips a ref whose tip object is already in the store
+                tips = {t for t in transferred if t in before}
+                if tips and missing <= g.closure(tips, shallow=shallow_after):
+                    miss_cls = "fetchall-tip-present-closure-missing"
+            if depth and not push:
+                md = min_depths(g, transferred if depth_tips is None else depth_tips)
+                unrecorded = {c for c, d in md.items() if d == depth and c in after and c not in shallow_after
+                              and any(p not in after for p in g.objs[c][2])}
+                if unrecorded and missing <= g.closure([p for c in unrecorded for p in g.objs[c][2]], shallow=shallow_after):
+                    miss_cls = "depth-fetch-boundary-not-recorded"
+            from_transferred = {i for i in g.closure(transferred, shallow=shallow_after) if i in g.objs} - after
+            ctx.oracle_fail(stream, case,
+                            f"receiver lacks {len(missing)} object(s) reachable from its refs after the transfer "
+                            f"(ids {show_ids(sorted(missing)[:8])}; {len(from_transferred)} of them from the transferred refs)",
+                            miss_cls)
+        new_shallow = shallow_after - shallow_before
+        if new_shallow:
+            if not depth:
+                ctx.oracle_fail(stream, case, f"a full fetch made commits shallow: {show_ids(new_shallow)}", "spurious-shallow")
+            else:
+                # (a root commit has no parents to cut: recording it as shallow loses nothing)
+                md = min_depths(g, transferred if depth_tips is None else depth_tips)
+                early = {c for c in new_shallow if md.get(c, 10 ** 9) < depth and g.objs[c][2]}
+                if early:
+                    ctx.oracle_fail(stream, case, f"history cut before the requested depth {depth} at {show_ids(early)}",
+                                    "shallow-too-early")
+        bad = []
+        for i in sorted(required & after):
+            try:
+                got = r.object_store.get_raw(world.sha[i])
+            except Exception as e:      # noqa: BLE001
+                bad.append((i, f"{type(e).__name__}"))
+                continue
+            if (got[0], bytes(got[1])) != world.raw(i):
+                bad.append((i, "bytes differ"))
+        if bad:
+            ctx.oracle_fail(stream, case, f"objects not byte-identical / unreadable in the receiver: {bad[:5]}", "not-identical")
+        new = after - before
+        extra = new - allowed
+        if extra:
+            ctx.oracle_fail(stream, case, f"receiver gained objects outside the closure of what was asked for: "
+                                          f"{show_ids(sorted(extra)[:10])}", "oversend")
+        if res.get("wire") is not None:
+            wire_ids = {world.rev[s] for s in res["wire"] if s in world.rev}
+            unknown = [s for s in res["wire"] if s not in world.rev]
+            wextra = wire_ids - allowed
+            if wextra or unknown:
+                ctx.oracle_fail(stream, case, f"objects on the wire outside the closure of what was asked for: "
+                                              f"{show_ids(sorted(wextra)[:10])} {unknown[:2]}", "oversend-wire")
+        result = {"after": after, "shallow": shallow_after, "new": new}
+    finally:
+        r.close()
+    if fsck:
+        rc, txt = _git(["-C", path, "fsck", "--connectivity-only"])
+        if rc != 0 and not missing:       # (an incomplete receiver has been reported above, with its class)
+            ctx.oracle_fail(stream, case, "git fsck --connectivity-only fails on the receiver although every object "
+                                          "reachable from its refs is present: " + txt[-300:], "fsck")
+        ctx.count(stream + ".fsck", (path,), rc == 0, "clean" if rc == 0 else "fails")
+    return result
+
+
+# Transfers that the unchanged code is known to abort with an exception (no pack is installed, the receiver is
+# untouched).  A failed transfer is outside the property's words ("after a successful fetch ..."); the harness
+# nevertheless expects every generated transfer to succeed and reports any *other* failure as a disagreement.
+EXPECTED_FAILURES = {
+    "client-single-ack-parse":
+        "dulwich client, multi_ack off: `_handle_upload_pack_head` indexes parts[2] of a two-token `ACK <sha>` line "
+        "(IndexError) when an ACK arrives while haves are still being sent (timing dependent); when the ACK arrives "
+        "later it is left unread and taken for side-band data (`Invalid sideband channel 65`)",
+    "client-push-shallow-advertisement":
+        "dulwich client pushing to a shallow C git repository: receive-pack advertises `shallow <sha>` lines, which "
+        "read_pkt_refs_v1 takes for a ref line (AssertionError: Invalid object name b'shallow')",
+    "server-push-shallow-thin-base":
+        "C git pushing a thin pack into a shallow dulwich repository: receive-pack does not advertise the shallow "
+        "commits, C git deltifies against an ancestor the receiver does not hold, add_thin_pack raises "
+        "UnresolvedDeltas and the push fails (same root cause as F-C05-push-into-shallow-receiver)",
+    "client-depth-early-shallow":
+        "dulwich client over a full-duplex transport with depth: the server's shallow/unshallow section is read as "
+        "if it were ACKs and its flush-pkt trips `assert pkt is not None` (timing dependent)",
+    "determine-wants-depth-noncommit":
+        "default determine_wants_all with a depth calls get_depth() on every advertised value; a ref naming a tag of a "
+        "tree/blob/tag makes it read `.parents` of a non-commit (AttributeError) before anything is transferred",
+    "cgit-refuses-shallow-push":
+        "C git receive-pack refuses a push whose pack leaves it incomplete (dulwich pushes from or into a shallow "
+        "repository without exchanging shallow information); the refusal keeps the receiver complete",
+    "server-shallow-client-without-deepen":
+        "dulwich server: a client that is already shallow and fetches without a depth sends `shallow` lines but no "
+        "`deepen`; `_handle_shallow_request` then meets the flush-pkt and raises UnexpectedCommandError",
+}
+
+
+def expected_failure(tr, var, op, err, receiver_shallow=False):
+    err = err or ""
+    if op["op"] in ("fetch", "fetchall") and "UnexpectedCommandError" in err and "_split_proto_line" in err and (
+            (receiver_shallow and not op.get("depth") and tr in ("tcp", "http", "git-tcp", "git-http")) or
+            ((receiver_shallow or op.get("depth")) and tr in ("git-tcp", "git-http"))):
+        return "server-shallow-client-without-deepen"
+    if op["op"] == "fetchall" and op.get("depth") and err.startswith("AttributeError") and "has no attribute 'parents'" in err:
+        return "determine-wants-depth-noncommit"
+    if op["op"] == "push" and tr == "cgit-sub" and (op.get("sender_shallow") or receiver_shallow) and \
+            ("missing necessary objects" in err or "shallow update not allowed" in err):
+        return "cgit-refuses-shallow-push"
+    if op["op"] == "push" and tr in ("git-tcp", "git-http") and receiver_shallow and "UnresolvedDeltas" in err:
+        return "server-push-shallow-thin-base"
+    if tr in ("tcp", "cgit-sub") and var.get("ack") == "single" and err.startswith("IndexError"):
+        return "client-single-ack-parse"
+    if tr == "cgit-sub" and var.get("ack") == "single" and "Invalid sideband channel 65" in err:
+        return "client-single-ack-parse"
+    if op["op"] == "push" and tr == "cgit-sub" and receiver_shallow and "Invalid object name b'shallow'" in err:
+        return "client-push-shallow-advertisement"
+    if tr in ("tcp", "cgit-sub") and op.get("depth") and err.startswith("AssertionError"):
+        return "client-depth-early-shallow"
+    return None
+
+
+def repo_state(world, path):
+    """(ids of the generated objects present, ids of the shallow commits) of the repository at path."""
+    from dulwich.repo import Repo
+    known, _ = world.ids_in(path)
+    with contextlib.closing(Repo(path)) as r:
+        sh = {world.rev[x] for x in r.get_shallow() if x in world.rev}
+    return known, sh
+
+
+def _failed(ctx, stream, case, tr, var, op, res, expectation, servers=None, shallow=()):
+    if servers is not None and servers.log.records:
+        res["err"] = (res.get("err") or "") + " || server: " + " ;; ".join(servers.log.records[-3:])
+    cls = expected_failure(tr, var, op, res.get("err"), bool(shallow))
+    if cls is not None:
+        ctx.count(stream + ".expected-failure", (cls, case["variant"], str(case["op"])), False, cls)
+        return
+    ctx.disagree(stream + ".unexpected-failure", case, expectation, res.get("err"))
+
+
+def _incomplete_class(push, depth, shallow_before, sender_shallow):
+    """Failing-input class of an incomplete receiver (used to match known findings narrowly)."""
+    if push and sender_shallow:
+        return "push-from-shallow-sender"
+    if push and shallow_before:
+        return "push-into-shallow-receiver"
+    if depth or shallow_before:
+        return "incomplete-shallow-fetch"
+    return "incomplete"
+
+
+def tag_follow_ids(g, srefs, base):
+    """Objects a tag-following client may additionally receive: the tag refs of the sender (annotated or
+    lightweight) whose peeled target is in `base`, with everything they reach."""
+    t = [v for n, v in srefs.items() if n.startswith(b"refs/tags/") and g.peel(v) in base]
+    return {i for i in g.closure(t) if i in g.objs}
+
+
+def run_scenario(ctx, servers, sc, ops, stream="e2e"):
+    """Materialise the scenario on disk and perform `ops` (list of dicts) in sequence, checking after each."""
+    g = sc["g"]
+    world = World(g, ctx.scratch / f"w{ctx.evaluations}_{len(os.listdir(ctx.scratch))}")
+    os.makedirs(world.root, exist_ok=True)
+    src = world.make_repo("src", sc["sender_ids"], sc["srefs"], head=sorted(sc["srefs"])[0], repack=sc["repack"])
+    dst = world.make_repo("dst", sc["recv_ids"], sc["rrefs"])
+    recv_ids = set(sc["recv_ids"])
+    shallow = set()
+    nfail0 = len(ctx.oracle_failures) + sum(ctx.known_hit.values())
+    for k_op, op in enumerate(ops):
+        if len(ctx.oracle_failures) + sum(ctx.known_hit.values()) > nfail0:
+            break       # the receiver no longer satisfies the property's precondition: later ops prove nothing
+        tr, var, kind = op["tr"], op["var"], op["op"]
+        case = {"scenario": scenario_json(sc), "ops": [op_json(o) for o in ops[:k_op + 1]],
+                "op": op_json(op), "variant": var_key(var)}
+        tag = f"{kind}:{tr}:{var.get('ack', '-')}" + (":depth" if op.get("depth") else "") + \
+              (":v2" if var.get("proto") == 2 else "") + (":tags" if var.get("include_tag") else "")
+        do_fsck = ctx.thorough or ctx.rng.random() < 0.15
+        if kind == "badwant":
+            # ask for an object no advertised ref reaches: the sender must not transmit it
+            bad = op["want"]
+            res = do_fetch(world, servers, tr, var, src, dst, {}, raw_wants=[world.sha[bad]])
+            ctx.count(stream + ".badwant", (tuple(g.tokens()), tuple(sorted(sc["srefs"].items())), tr, bad), True,
+                      f"{tr}:" + ("served" if res["ok"] else "refused"))
+            known, _ = world.ids_in(dst)
+            adv = {i for i in g.closure(sc["srefs"].values()) if i in g.objs}
+            leaked = (known - recv_ids) - adv
+            wire = {world.rev[x] for x in (res.get("wire") or ()) if x in world.rev} - adv
+            if leaked or wire:
+                ctx.oracle_fail(stream + ".badwant", case,
+                                f"the sender transmitted objects unreachable from every ref it advertises "
+                                f"(want of unadvertised object {bad}): {show_ids(sorted(leaked | wire)[:8])}",
+                                "unadvertised-want-" + ("local" if tr == "local" else "served"))
+            recv_ids = known
+            continue
+        if kind in ("fetch", "fetchall"):
+            want_refs = {n: sc["srefs"][n] for n in (op["refs"] if kind == "fetch" else sc["srefs"])}
+            res = do_fetch(world, servers, tr, var, src, dst, want_refs, depth=op.get("depth"), fetch_all=(kind == "fetchall"))
+            wants = set(want_refs.values())
+            wclos = {i for i in g.closure(wants) if i in g.objs}
+            allowed = set(wclos)
+            if var.get("include_tag") and b"include-tag" not in var.get("server_drop", ()) or tr.startswith("git-") and var.get("include_tag"):
+                base = wclos | recv_ids
+                if tr.startswith("git-"):
+                    base |= {i for i, o in g.objs.items() if o == ("tree", [])}   # C git always "has" the empty tree
+                allowed |= tag_follow_ids(g, sc["srefs"], base)
+            depth_tips = None
+            if tr.startswith("git-") or kind == "fetchall":
+                # these clients only ask for refs they do not hold yet: the depth counts from those
+                depth_tips = {t for t in wants if not {i for i in g.closure([t]) if i in g.objs} <= recv_ids}
+            ctx.count(stream, (tuple(g.tokens()), tuple(sorted(sc["srefs"].items())), tuple(sorted(sc["rrefs"].items())),
+                               tag, var_key(var), tuple(sorted(op.get("refs", ())))), res["ok"], tag + (":ok" if res["ok"] else ":fail"))
+            if not res["ok"]:
+                _failed(ctx, stream, case, tr, var, op, res, "transfer succeeds", servers, shallow)
+                recv_ids, shallow = repo_state(world, dst)    # a failed transfer may leave objects / shallow info behind
+                continue
+            out = check_receiver(ctx, stream, world, case, dst, recv_ids, shallow, wants, allowed, res,
+                                 depth=op.get("depth"), fsck=do_fsck, fetch_all=(kind == "fetchall"),
+                                 depth_tips=depth_tips)
+            recv_ids, shallow = out["after"], out["shallow"]
+            if res.get("deltas"):
+                ctx.count(stream + ".thin-or-delta", (tag, len(out["new"])), True, tr)
+        elif kind == "clone":
+            res, cpath = do_clone(world, servers, tr, var, src, depth=op.get("depth"))
+            ctx.count(stream, (tuple(g.tokens()), tuple(sorted(sc["srefs"].items())), tag, var_key(var)), res["ok"],
+                      tag + (":ok" if res["ok"] else ":fail"))
+            if not res["ok"]:
+                _failed(ctx, stream, case, tr, var, op, res, "clone succeeds", servers)
+                continue
+            roots = set(sc["srefs"].values())
+            allowed = {i for i in g.closure(roots) if i in g.objs}
+            check_receiver(ctx, stream, world, case, cpath, set(), set(), roots, allowed, res, depth=op.get("depth"),
+                           fsck=do_fsck)
+        else:   # push: the roles are swapped — `src` sends to `dst`
+            push_refs = {n: sc["srefs"][n] for n in op["refs"]}
+            psrc, sender_shallow = src, False
+            if op.get("shallow_sender"):
+                # the pushing repository is itself a depth-limited clone of the sender (made by the real code)
+                cres, psrc = do_clone(world, servers, "local", {}, src, depth=op["shallow_sender"])
+                if not cres["ok"]:
+                    _failed(ctx, stream, case, "local", {}, {"op": "clone", "depth": op["shallow_sender"]}, cres,
+                            "depth clone succeeds", servers)
+                    continue
+                from dulwich.repo import Repo
+                with contextlib.closing(Repo(psrc)) as pr:
+                    sender_shallow = bool(pr.get_shallow())
+                    have = set(pr.object_store)
+                push_refs = {n: i for n, i in push_refs.items() if world.sha[i] in have}
+                if not push_refs:
+                    continue
+                tag += ":shallow-sender" if sender_shallow else ""
+            res = do_push(world, servers, tr, var, psrc, dst, push_refs)
+            roots = set(push_refs.values())
+            allowed = {i for i in g.closure(roots) if i in g.objs}
+            ctx.count(stream, (tuple(g.tokens()), tuple(sorted(sc["srefs"].items())), tuple(sorted(sc["rrefs"].items())),
+                               tag, var_key(var), tuple(sorted(op["refs"]))), res["ok"], tag + (":ok" if res["ok"] else ":fail"))
+            if not res["ok"]:
+                _failed(ctx, stream, case, tr, var, dict(op, sender_shallow=sender_shallow), res, "push succeeds", servers, shallow)
+                recv_ids, shallow = repo_state(world, dst)
+                continue
+            out = check_receiver(ctx, stream, world, case, dst, recv_ids, shallow, roots, allowed, res, fsck=do_fsck,
+                                 push=True, sender_shallow=sender_shallow)
+            recv_ids, shallow = out["after"], out["shallow"]
+
+
+def op_json(op):
+    d = {}
+    for k, v in op.items():
+        if k == "var":
+            d[k] = json.loads(var_key(v))
+        elif k == "refs":
+            d[k] = [r.decode() if isinstance(r, bytes) else r for r in v]
+        else:
+            d[k] = v
+    return d
+
+
+def op_from_json(d):
+    op = dict(d)
+    if "refs" in op:
+        op["refs"] = [r.encode() for r in op["refs"]]
+    var = dict(op.get("var", {}))
+    for k in ("server_drop", "client_drop"):
+        if k in var:
+            var[k] = [x.encode() for x in var[k]]
+    op["var"] = var
+    return op
+
+
+def scenario_json(sc):
+    return {"graph": sc["g"].to_json(), "srefs": {k.decode(): v for k, v in sc["srefs"].items()},
+            "sender_ids": sorted(sc["sender_ids"]), "rrefs": {k.decode(): v for k, v in sc["rrefs"].items()},
+            "recv_ids": sorted(sc["recv_ids"]), "state": sc["state"], "repack": sc["repack"]}
+
+
+def scenario_from_json(d):
+    return {"g": Graph.from_json(d["graph"]), "srefs": {k.encode(): v for k, v in d["srefs"].items()},
+            "sender_ids": set(d["sender_ids"]), "rrefs": {k.encode(): v for k, v in d["rrefs"].items()},
+            "recv_ids": set(d["recv_ids"]), "state": d.get("state", "?"), "repack": d.get("repack", False)}
+
+
+def gen_ops(rng, sc, transports):
+    ops = []
+    names = sorted(sc["srefs"])
+    for _ in range(rng.choice([1, 1, 2, 3])):
+        tr = rng.choice(transports)
+        kind = rng.choice(["fetch"] * 5 + ["clone"] * 2 + ["push"] * 3 + ["fetchall"] * 2 + ["badwant"])
+        if kind == "fetchall" and tr in GIT_TRANSPORTS:
+            kind = "fetch"
+        if kind == "badwant":
+            adv = sc["g"].closure(sc["srefs"].values())
+            cand = [i for i in sc["sender_ids"] if i not in adv and sc["g"].objs[i][0] in ("commit", "tag")]
+            if not cand or tr in GIT_TRANSPORTS or tr == "cgit-sub":
+                kind = "fetch"
+        op = {"op": kind, "tr": tr, "var": gen_variant(rng, tr, kind)}
+        if kind == "badwant":
+            op["want"] = rng.choice(sorted(cand))
+        if kind in ("fetch", "push"):
+            k = rng.choice([1, 1, 2, len(names)])
+            op["refs"] = sorted(rng.sample(names, min(k, len(names))))
+        if kind == "push" and tr not in GIT_TRANSPORTS and rng.random() < 0.15:
+            op["shallow_sender"] = rng.choice([1, 2])
+        if kind in ("fetch", "clone", "fetchall") and rng.random() < 0.2:
+            op["depth"] = rng.choice([1, 2, 3])
+        ops.append(op)
+    return ops
+
+
+def _stream_e2e(ctx, servers):
+    rng = ctx.rng
+    n = ctx.budget(150, mult=10)
+    if ctx.thorough:
+        transports = DUL_TRANSPORTS + GIT_TRANSPORTS
+    else:
+        transports = ["local"] * 4 + ["tcp"] * 3 + ["http"] * 3 + ["cgit-sub"] * 2 + GIT_TRANSPORTS
+    for _ in range(n):
+        sc = gen_scenario(rng)
+        run_scenario(ctx, servers, sc, gen_ops(rng, sc, transports))
+
+
+# ------------------------------------------------------------------------------------------------
+# entry points
+
+ASSUMPTIONS = [
+    "sender repositories have no commit-graph file, no grafts and no bitmaps (MissingObjectFinder is modelled with "
+    "get_parents = commit.parents and the GraphTraversalReachability provider)",
+    "object names are injective on the generated histories (checked at materialisation); byte identity in the "
+    "theorems is content addressing: equal names => equal objects is a hypothesis, the oracle compares the bytes",
+    "the e2e oracle observes the objects a dulwich server decided to send by wrapping dulwich.server."
+    "write_pack_from_container in the harness process, the bytes a dulwich client received by teeing its pack_data "
+    "callback, and otherwise the receiver's object set before/after",
+    "transfers that the unchanged code aborts with an exception are outside the property's words; the known ones are "
+    "listed in the evidence (expected_failures) and every other failed transfer is reported as a disagreement",
+]
+
+
+def run(ctx: core.Ctx):
+    ctx.assumptions += ASSUMPTIONS
+    ctx.extra_cov["expected_failures"] = EXPECTED_FAILURES
+    _run_corpus(ctx)
+    _stream_mof(ctx)
+    servers = Servers()
+    servers.start_capture()
+    try:
+        _stream_e2e(ctx, servers)
+    finally:
+        servers.close()
+
+
+def _run_corpus(ctx):
+    d = core.VERIF / "corpus" / "C05"
+    if not d.exists():
+        return
+    servers = None
+    try:
+        for f in sorted(d.glob("*.json")):
+            c = json.loads(f.read_text())
+            if c.get("type") == "mof":
+                run_mof_cases(ctx, "mof.corpus", [case_from_json(c["case"])])
+            elif c.get("type") == "e2e":
+                if servers is None:
+                    servers = Servers()
+                    servers.start_capture()
+                sc = scenario_from_json(c["case"]["scenario"])
+                ops = [op_from_json(o) for o in c["case"]["ops"]]
+                for _ in range(c.get("repeat", 1)):
+                    n0 = len(ctx.oracle_failures) + sum(ctx.known_hit.values())
+                    run_scenario(ctx, servers, sc, ops, stream="e2e")
+                    if len(ctx.oracle_failures) + sum(ctx.known_hit.values()) > n0:
+                        break
+    finally:
+        if servers is not None:
+            servers.close()
+
+
+def search(ctx: core.Ctx):
+    """Failing-input search after a broken obligation / disagreement: the direct oracles with a boosted budget,
+    first around the disagreeing cases (same graph, every have/want choice), then on fresh cases."""
+    rng = ctx.rng
+    seen = 0
+    for dgr in ctx.disagreements[:20]:
+        c = dgr["case"]
+        if "graph" not in c:
+            continue
+        base = case_from_json(c)
+        g = base["g"]
+        roots = g.ids("commit") + g.ids("tag")
+        variants = [base]
+        for _ in range(60):
+            v = dict(base)
+            v["wants"] = set(rng.sample(roots, min(len(roots), rng.choice([1, 2]))))
+            v["haves"] = set(rng.sample(roots, min(len(roots), rng.choice([0, 1, 2]))))
+            variants.append(v)
+        _oracle_only(ctx, "search.mof", variants)
+        seen += 1
+        if ctx.oracle_failures:
+            return
+    _oracle_only(ctx, "search.mof", [gen_mof_case(rng) for _ in range(ctx.budget(1500, mult=4))])
+    if ctx.oracle_failures:
+        return
+    servers = Servers()
+    servers.start_capture()
+    try:
+        transports = DUL_TRANSPORTS + GIT_TRANSPORTS
+        for _ in range(ctx.budget(60, mult=5)):
+            sc = gen_scenario(rng)
+            run_scenario(ctx, servers, sc, gen_ops(rng, sc, transports), stream="search.e2e")
+            if ctx.oracle_failures:
+                return
+    finally:
+        servers.close()
+
+
+def _oracle_only(ctx, stream, cases):
+    from dulwich.object_store import MemoryObjectStore
+    for c in cases:
+        objs, sha = materialise(c["g"])
+        store = MemoryObjectStore()
+        for i in c["present"]:
+            store.add_object(objs[i])
+        for r in (None, ctx.rng):
+            res = real_mof(store, sha, c["haves"], c["wants"], c["shallow"], c["tagged"], r)
+            if res[0] == "ok":
+                mof_oracle(ctx, stream, c, res[1])
+        if ctx.oracle_failures:
+            return
+
+
+def replay(ctx: core.Ctx, data: dict) -> int:
+    case = data.get("case", {})
+    if "scenario" in case:
+        servers = Servers()
+        servers.start_capture()
+        try:
+            sc = scenario_from_json(case["scenario"])
+            ops = [op_from_json(o) for o in case["ops"]]
+            for _ in range(int(data.get("repeat", 3))):      # some failures depend on socket timing
+                run_scenario(ctx, servers, sc, ops, stream=data.get("stream", "e2e"))
+                if ctx.oracle_failures or ctx.known_hit:
+                    break
+        finally:
+            servers.close()
+    elif "graph" in case:
+        c = case_from_json(case)
+        run_mof_cases(ctx, data.get("stream", "mof"), [c])
+    else:
+        print("replay: nothing to replay in this file (broken-obligation record?)")
+        print(json.dumps(data.get("no_longer_checks", ""), indent=1)[:2000])
+        return 1 if data.get("kind") == "broken-obligation" else 0
+    for f in ctx.oracle_failures:
+        print("replay: FAILS:", f["class"], "-", f["what"][:300])
+    for k, n in ctx.known_hit.items():
+        print(f"replay: KNOWN-FINDING {k} hit {n}x")
+    for d in ctx.disagreements:
+        print("replay: disagreement:", d["stream"], str(d["model"])[:120], "vs", str(d["impl"])[:200])
+    if ctx.oracle_failures:
+        print(f"VIOLATION property=C05 replay={data.get('_path', '<replayed>')}")
+        return 1
+    print("replay: property holds on this case" + (" (known finding reproduced)" if ctx.known_hit else ""))
+    return 0
